@@ -366,6 +366,30 @@ def fallback_sweep(repo, con, registry, tier, seed):
 
 # ------------------------------------------------------------------------------------------------ expression-domain contracts
 def expr_sweep(con, n, seed, want_failures=3):
+    """Parallel front end of _expr_sweep1 (16 workers, independent sub-seeds)."""
+    import multiprocessing as mp
+    if n < 400:
+        return _expr_sweep1((con, n, seed, want_failures))
+    from . import concrete
+    concrete.y0mod("y0.dsl")
+    w = 16
+    jobs = [(con.qual, n // w + 1, f"{seed}/{i}", want_failures) for i in range(w)]
+    with mp.get_context("fork").Pool(w) as pool:
+        parts = pool.map(_expr_sweep1, jobs)
+    out = {"evaluations": 0, "pre_false": 0, "failures": [], "errors": [], "distinct": 0}
+    for p_ in parts:
+        for k in ("evaluations", "pre_false", "distinct"):
+            out[k] += p_[k]
+        out["failures"] += p_["failures"]
+        out["errors"] += p_["errors"]
+    out["failures"].sort(key=lambda f: len(str(f["args"])))
+    return out
+
+
+def _expr_sweep1(job):
+    con, n, seed, want_failures = job
+    if isinstance(con, str):
+        con = REGISTRY[con]
     """Run-time check of an expression-domain contract on the real function over a pool of concrete expressions, judged by
     the exact rational evaluator.  Returns stats with failures as replayable cases."""
     import base64
